@@ -56,6 +56,7 @@ var (
 	errNoUniqueID           = errors.New("packet does not contain a unique identifier")
 	errShortUniqueID        = errors.New("UniqueIdentifier.ID < 32 bytes")
 	errUnexpectedExtHdrType = errors.New("unexpected extension header type")
+	errUnexpectedNonceLen   = errors.New("unexpected nonce length")
 	errUnexpectedResponseID = errors.New("unexpected response ID")
 )
 
@@ -215,6 +216,9 @@ func (pkt *Packet) authenticate(b []byte, key []byte) error {
 		return err
 	}
 
+	if len(pkt.Auth.Nonce) != aessiv.NonceSize() {
+		return errUnexpectedNonceLen
+	}
 	decrytedBuf, err := aessiv.Open(nil, pkt.Auth.Nonce, pkt.Auth.CipherText, b[:pkt.Auth.pos])
 	if err != nil {
 		return err
